@@ -180,10 +180,21 @@ def move_staticmethod_static_scope(source: str, preserve: Collection[str]) -> st
             for classdef in parsing.iter_classdefs(root)
         )
 
+    # Class().name(): the instance is only created for the call, unless creating it does something.
+    classes_with_constructor = {
+        classdef.name
+        for classdef in parsing.iter_classdefs(root)
+        if classdef.bases
+        or any(
+            funcdef.name in {"__init__", "__new__", "__del__"}
+            for funcdef in parsing.iter_funcdefs(classdef)
+    )}
+
     for node in core.walk(root, ast.Attribute):
         if (
-            core.match_template(node.value, ast.Call(func=ast.Name))
+            core.match_template(node.value, ast.Call(func=ast.Name, args=[], keywords=[]))
             and (node.value.func.id, node.attr) in class_function_names
+            and node.value.func.id not in classes_with_constructor
         ):
             class_attribute_accesses.add(node)
         elif isinstance(node.value, ast.Name) and (
